@@ -16,6 +16,7 @@ Lines:
   def <Name> <Parent|-> <extra|-> fld(<hex>,ty,<json>|-).. const(..).. ovr(<hex>).. mand(<hex>).. [constovr]
   build                                         class construction rules for the `def` table
   dec <ty> <json> | encdec <ty> <json> | acc <ty> <json> | enc <value> | sub <ty> <ty> | chk <Name>
+  load <Name>                                   check_types without recheck: the marks of earlier loads stay
 -/
 open MetadorModel MetadorModel.Drv MetadorModel.Codec MetadorModel.Subtype
 
@@ -210,6 +211,8 @@ structure St where
   nfQty : List (Str × NF) := []
   eff : List ESchema := []
   defs : Table := []
+  /-- `__types_checked__` marks left behind by the `load` lines so far -/
+  marks : List Str := []
 
 def lookupNF (k : Str) : List (Str × NF) → Option NF
   | [] => none
@@ -396,6 +399,12 @@ def step (s : St) : List String → St × String
   | ["chk", n] =>
     match Subtype.find s.defs n.toList with
     | some _ => (s, "check:" ++ showRefusal (checkTypes s.defs n.toList))
+    | none => (s, "bad-op")
+  | ["load", n] =>
+    match Subtype.find s.defs n.toList with
+    | some _ =>
+      let r := loadPlugin s.defs s.marks n.toList
+      ({ s with marks := r.1 }, "check:" ++ showRefusal r.2)
     | none => (s, "bad-op")
   | _ => (s, "bad-op")
 
